@@ -992,3 +992,75 @@ Proof.
   exists legacy_witness_cfg, "minute"%string, 1, legacy_witness_vals2, legacy_witness_state.
   split; [reflexivity|]. split; [reflexivity|]. vm_compute. reflexivity.
 Qed.
+
+(* ------------------------------------------------------------------------------------------ *)
+(* 11. parameter updates never leave an identifier in force that names no epoch                  *)
+
+Lemma mint_update_keeps_known vb auth known prev req :
+  known_id known (fst prev) = true -> known_id known (fst (snd (mint_update vb auth known prev req))) = true.
+Proof.
+  intros Hk. unfold mint_update.
+  destruct (vb && ((snd req <? 0) || blank (fst req))); [exact Hk|].
+  destruct (negb auth); [exact Hk|]. cbn [snd fst].
+  destruct (known_id known (if blank (fst req) then fst prev else fst req)) eqn:E; [exact E|exact Hk].
+Qed.
+
+Lemma mint_update_reward_nonneg vb auth known prev req :
+  0 <= snd prev -> 0 <= snd (snd (mint_update vb auth known prev req)).
+Proof.
+  intros Hp. unfold mint_update.
+  destruct (vb && ((snd req <? 0) || blank (fst req))); [exact Hp|].
+  destruct (negb auth); [exact Hp|]. cbn [snd fst].
+  destruct (snd req <? 0) eqn:E; [exact Hp|apply Z.ltb_ge in E; exact E].
+Qed.
+
+Lemma dist_update_keeps_known auth known prev req :
+  known_id known (fst prev) = true -> known_id known (fst (snd (dist_update auth known prev req))) = true.
+Proof.
+  intros Hk. unfold dist_update. destruct (negb auth); [exact Hk|].
+  destruct (known_id known (fst req)) eqn:E; [exact E|exact Hk].
+Qed.
+
+(* a request: (through ValidateBasic?, authority ok?, (identifier, reward)) *)
+Definition mint_updates (known : list string) (prev : string * Z) (reqs : list (bool * bool * (string * Z))) : string * Z :=
+  fold_left (fun p r => snd (mint_update (fst (fst r)) (snd (fst r)) known p (snd r))) reqs prev.
+
+Lemma mint_updates_keep known reqs : forall prev,
+  known_id known (fst prev) = true -> 0 <= snd prev ->
+  known_id known (fst (mint_updates known prev reqs)) = true /\ 0 <= snd (mint_updates known prev reqs).
+Proof.
+  unfold mint_updates. induction reqs as [|r rs IH]; intros prev Hk Hp; simpl; [split; assumption|].
+  apply IH; [apply mint_update_keeps_known; exact Hk|apply mint_update_reward_nonneg; exact Hp].
+Qed.
+
+Lemma C17_configured_reward_minted_proof : forall known reqs prev c id total vals s s',
+  known_id known (fst prev) = true -> 0 <= snd prev ->
+  c_mint_id c = fst (mint_updates known prev reqs) -> c_reward c = snd (mint_updates known prev reqs) ->
+  id = fst (mint_updates known prev reqs) ->
+  epoch_end c id total vals s = Ok s' ->
+  known_id known id = true /\ s_supply s' = s_supply s + snd (mint_updates known prev reqs).
+Proof.
+  intros known reqs prev c id total vals s s' Hk Hp Hid Hrew Heq H.
+  pose proof (mint_updates_keep known reqs prev Hk Hp) as [K1 K2].
+  apply epoch_end_facts in H. destruct H as (H1 & _). unfold minted_now in H1.
+  rewrite Hid, Heq, String.eqb_refl, Hrew in H1. split; [rewrite Heq; exact K1|exact H1].
+Qed.
+
+(* the update clause of the monitor is true of the update rules *)
+Lemma monitor_upd_accepts_model_proof : forall k vb auth known prev req,
+  (k = UMint \/ k = UDist) ->
+  let u0 := mkUpd k vb auth known prev req false prev in
+  monitor_upd (mkUpd k vb auth known prev req (fst (upd_spec u0 prev)) (snd (upd_spec u0 prev))) = true /\
+  check_upd (mkUpd k vb auth known prev req (fst (upd_spec u0 prev)) (snd (upd_spec u0 prev))) = true.
+Proof.
+  intros k vb auth known prev req Hk. cbv zeta.
+  assert (Hpe : forall a : string * Z, pair_eqb a a = true).
+  { intros [a b]. unfold pair_eqb. simpl. rewrite String.eqb_refl, Z.eqb_refl. reflexivity. }
+  destruct Hk as [-> | ->]; unfold monitor_upd, check_upd, upd_spec; cbn [u_kind u_vb u_auth u_known u_prev u_req u_err u_post].
+  - split.
+    + destruct (known_id known (fst prev)) eqn:E; [|reflexivity]. simpl. apply mint_update_keeps_known. exact E.
+    + destruct (mint_update vb auth known prev req) as [e p]. cbn [fst snd]. rewrite Bool.eqb_reflx, Hpe. reflexivity.
+  - split.
+    + destruct (known_id known (fst prev)) eqn:E; [|reflexivity]. simpl. apply dist_update_keeps_known. exact E.
+    + destruct (dist_update auth known prev req) as [e p]. cbn [fst snd]. rewrite Bool.eqb_reflx, Hpe. reflexivity.
+Qed.
